@@ -15,6 +15,33 @@ func (fx *fnExec) invokeHooks(m *types.Func, recv Val, args []Val, st *State, po
 		return
 	}
 	sig, _ := m.Type().(*types.Signature)
+	// ghost counters updated at the call of an interface method
+	for _, g := range fx.c.Ghost {
+		if g.Callee != m.Name() {
+			continue
+		}
+		if g.After {
+			fail("%s: `ghost ... after call %s`: %s is an interface method call that is not devirtualised here; use `at call`", fx.fn, g.Callee, g.Callee)
+		}
+		env := fx.specEnv(st, fx.entry, nil)
+		env.vars["$recv"] = recv
+		for j := range args {
+			env.vars[fmt.Sprintf("$%d", j)] = args[j]
+			if sig != nil && j < sig.Params().Len() && sig.Params().At(j).Name() != "" {
+				env.vars["$"+sig.Params().At(j).Name()] = args[j]
+			}
+		}
+		d := env.eval(g.Delta.Expr)
+		dt := toBV64(env.coerce(d, tInt))
+		if g.When != nil {
+			dt = Ite(env.evalBool(*g.When), dt, BVI(0, 64))
+		}
+		cur, ok := st.Ghost[g.Name]
+		if !ok {
+			cur = BVI(0, 64)
+		}
+		st.Ghost[g.Name] = BVAdd(cur, dt)
+	}
 	for i, a := range fx.c.Asserts {
 		if a.Callee != m.Name() {
 			continue
